@@ -22,7 +22,8 @@ RULE = (
     "score(X, explain_score=True): total = sum(weight_i*score_i) of the returned tuple, bias = mean(sqrt NIS)^2, variance = "
     "(1/sum NIS + sum NIS)/2, size = sum of squared noise magnitudes, weights positive, and with sample_weight (single "
     "sensor) the weighted forms; score(X) == total; get_params() deep-equal before/after every call; repeated calls "
-    "bit-identical. Non-trivial = (>=2 sensors or >=1 control) and every row has pairwise distinct entries; distinct = "
+    "bit-identical; after set_params(innovation_filtering=other value) transform must again equal the freshly exported "
+    "filter run by hand (no stale compiled filter). Non-trivial = (>=2 sensors or >=1 control) and every row has pairwise distinct entries; distinct = "
     "sha1(case)."
 )
 ASSUMPTIONS = [
@@ -44,7 +45,8 @@ def cases(draw):
     rows = draw(st.integers(3, 10))
     X = [[draw(models.signed_val()) for _ in range(width)] for _ in range(rows)]
     w = [draw(st.floats(0.1, 2.0, allow_nan=False)) for _ in range(rows)]
-    return {"model": m, "X": X, "weights": w}
+    second_k = draw(st.sampled_from([None, 0.5, 1.0, 4.0]))
+    return {"model": m, "X": X, "weights": w, "second_k": second_k}
 
 
 def make_adapter(m):
@@ -238,6 +240,20 @@ def _case(spec, ctx):
             if not (rel(pw[1], eb) and rel(pw[3], ev)):
                 ctx.fail("score:sample_weight", f"bias {pw[1]} exp {eb}; variance {pw[3]} exp {ev}", spec)
             ctx.event("sample_weight_checked")
+        # a parameter changed through set_params must be honoured by the next call (no stale compiled filter)
+        k0 = m["config"]["innov"]
+        k1 = spec.get("second_k", "unset")
+        if k1 != "unset" and k1 != k0:
+            with ctx.formak("set_params+transform", spec):
+                ad.set_params(innovation_filtering=k1)
+                t3 = np.asarray(ad.transform(X), float)
+                hand3 = by_hand(ad.export_python(), m, X)
+            if not np.allclose(t3, hand3, rtol=1e-12, atol=1e-15):
+                ctx.fail("transform:stale-after-set_params", f"after set_params(innovation_filtering={k1!r}) (was {k0!r}): transform {t3.tolist()} "
+                                                             f"exported filter by hand {hand3.tolist()}", spec)
+            if not np.array_equal(t3, t1):
+                ctx.event("second_threshold_changed_the_NIS")
+            ctx.event("set_params_then_transform_checked")
     distinct_rows = all(len(set(r)) == len(r) for r in spec["X"])
     ctx.event(f"sensors={nsens}")
     ctx.event(f"controls={len(m['control'])}")
